@@ -6,7 +6,7 @@ Require Import ExtrOcamlString.  (* stdlib directives: ascii -> char, string -> 
 From Coq Require Import NArith Bool.
 From Chibicc Require Import Proofs.LayoutProofs Proofs.LexerProofs.
 From Chibicc Require Import Model.Hashmap Model.HashmapC Model.Unicode Gen.UnicodeTables Spec.Utf
-     Model.IntLit Spec.IntLitSpec Model.Layout Model.Declspec Gen.DeclspecTable Spec.DeclspecSpec Spec.C11Int Model.ConstFold Model.X86Int Model.CodegenInt Gen.CastTable Model.Abi Spec.AbiSpec Gen.AbiConsts Model.Driver Model.Lexer Gen.PunctTable Model.Phases Model.SourcePos Model.LineDir Model.Macro Model.Cond Model.Include Model.StackDisc Proofs.StackDiscProofs Model.Control Model.Bitfield Model.Linkage Model.Lowering Model.ExprGen.
+     Model.IntLit Spec.IntLitSpec Model.Layout Model.Declspec Gen.DeclspecTable Spec.DeclspecSpec Spec.C11Int Model.ConstFold Model.X86Int Model.CodegenInt Gen.CastTable Model.Abi Spec.AbiSpec Gen.AbiConsts Model.Driver Model.Lexer Gen.PunctTable Model.Phases Model.SourcePos Model.LineDir Model.Macro Model.Cond Model.Include Model.StackDisc Proofs.StackDiscProofs Model.Control Model.Bitfield Model.Linkage Model.Lowering Model.ExprGen Model.ExprFlat.
 Definition is_ident1_m (c : N) : bool := Unicode.in_range ident1_ranges c.
 Definition is_ident2_m (c : N) : bool := is_ident1_m c || Unicode.in_range ident2_ranges c.
 Extraction "modelext.ml" c_empty c_step fnv capacity
@@ -23,5 +23,5 @@ Extraction "modelext.ml" c_empty c_step fnv capacity
   StackDisc.gen gs srun wt wts need sneed cls_of
   pp2 of_lex Cond.run Cond.select Cond.flat resolve resolve_next
   lgen lsize lexec
-  compile grun gen_cmp_zero
+  compile grun gen_cmp_zero gflatten fsize
   struct_layout union_layout struct_members struct_step no_bad declspec kw_op ds_table c11_type_specifiers.
